@@ -14,6 +14,14 @@ use crate::{ensure, format};
 pub struct Case {
     pub opts: Opts,
     pub tree: Tree,
+    /// `BackupOptions::owner`: off in an eighth of the cases (owners are then neither
+    /// recorded nor compared; everything else must still come back exactly).
+    #[serde(default = "yes")]
+    pub record_owner: bool,
+}
+
+fn yes() -> bool {
+    true
 }
 
 fn strategy(tier: Tier) -> BoxedStrategy<Case> {
@@ -22,7 +30,13 @@ fn strategy(tier: Tier) -> BoxedStrategy<Case> {
         // wide trees: > 100 distinct blocks; in the thorough tier occasionally > 10 000 hunks
         1 => tree::wide_strategy(tier == Tier::Thorough),
     ]
-    .prop_map(|(opts, tree)| Case { opts, tree })
+    .prop_flat_map(|(opts, tree)| {
+        prop_oneof![7 => Just(true), 1 => Just(false)].prop_map(move |record_owner| Case {
+            opts,
+            tree: tree.clone(),
+            record_owner,
+        })
+    })
     .boxed()
 }
 
@@ -35,7 +49,9 @@ fn run(case: &Case, cx: &mut Cx) -> CaseResult {
     let c = ops::create_archive(&arch);
     ensure!(c.clean(), "C01/create-archive", "{}", c.describe());
 
+    ops::set_record_owner(case.record_owner);
     let b = ops::backup(&arch, &None, &src, case.opts, &[]);
+    ops::set_record_owner(true);
     if let Some(p) = &b.panic {
         return Err(Failure::new(
             format!("C01/backup-panic@{}", ops::panic_site(p)),
@@ -61,7 +77,31 @@ fn run(case: &Case, cx: &mut Cx) -> CaseResult {
 
     let want = tree::expected(&case.tree);
     let got = tree::snapshot(&dest);
-    if let Some((field, msg)) = tree::first_diff(&want, &got, CmpOpts::restore()) {
+    let mut want_restored = want.clone();
+    if !case.record_owner {
+        // owners were not recorded: whatever the restored entries belong to is accepted
+        for (p, w) in want_restored.iter_mut() {
+            if let Some(g) = got.get(p) {
+                w.uid = g.uid;
+                w.gid = g.gid;
+            }
+        }
+        let ra = format::scan(&arch);
+        for b in ra.bands.values() {
+            for e in b.all_entries() {
+                ensure!(
+                    e.user.is_none() && e.group.is_none(),
+                    "C01/owner-recorded-although-off",
+                    "{}: user {:?} group {:?} recorded by a backup made with owner = false",
+                    e.apath,
+                    e.user,
+                    e.group
+                );
+            }
+        }
+    }
+    let want_restored = &want_restored;
+    if let Some((field, msg)) = tree::first_diff(want_restored, &got, CmpOpts::restore()) {
         return Err(Failure::new(format!("C01/restore-diff/{field}"), msg));
     }
 
@@ -124,6 +164,7 @@ fn classify(case: &Case, arch: &std::path::Path, cx: &mut Cx) {
     cx.label_if(neg_frac, "pre1970-with-nanos");
     cx.label_if(combined && multi_block, "combined+multiblock");
     cx.label_if(t.0.len() <= 2, "tiny-tree");
+    cx.label_if(!case.record_owner, "owner-not-recorded");
     cx.label_if(t.max_depth() > 8, "deeper-than-8-levels");
     cx.label_if(ra.blocks.len() > 100, ">100-blocks");
     cx.label_if(hunks > 10_000, ">10000-hunks");
@@ -147,7 +188,7 @@ fn enumerate(_tier: Tier, idx: u32, of: u32, cx: &mut Cx) -> CaseResult {
         let sub = cx.dir(name);
         std::fs::create_dir_all(&sub).unwrap();
         let mut cx2 = crate::engine::sub_cx(cx, sub.clone());
-        run(&Case { opts, tree }, &mut cx2).map_err(|mut f| {
+        run(&Case { opts, tree, record_owner: true }, &mut cx2).map_err(|mut f| {
             f.signature = format!("{}/probe-{name}", f.signature);
             f.inner = serde_json::json!({"probe": name});
             f
